@@ -251,8 +251,8 @@ CHECKS = {
              "script loaded unless filter.lua; a failed restore or a busy key under key_exists=none must surface as an error or abort, never as a clean return.",
         note="grant orders are explored with a bound on deviations from first-come-first-served (stated in the evidence); which worker dequeues the next entry is left to the Go runtime within one quiescent step (GOMAXPROCS=1, replay checked); a free-running -race pass covers unsynchronised accesses",
         rule="execution = (scenario, grant order); states = distinct grant orders per scenario; transitions = grants; non-trivial = scenarios with more than one worker",
-        parts=[dict(pkg="./redis-shake/dbSync", harness=["dbsync"], test="^TestVerif_C07$", shards=16, gomaxprocs=1, budget=dict(quick=75, thorough=1200)),
-               dict(pkg="./redis-shake", harness=["run"], test="^TestVerif_C07R$", shards=16, gomaxprocs=1, budget=dict(quick=75, thorough=1200))],
+        parts=[dict(pkg="./redis-shake/dbSync", harness=["dbsync"], test="^TestVerif_C07$", race=True, race_test="^TestVerif_C07Race$", race_shards=4, shards=16, gomaxprocs=1, budget=dict(quick=75, thorough=1200)),
+               dict(pkg="./redis-shake", harness=["run"], test="^TestVerif_C07R$", race=True, race_test="^TestVerif_C07RRace$", race_shards=4, shards=16, gomaxprocs=1, budget=dict(quick=75, thorough=1200))],
     ),
     "C16": dict(
         level="model_checking",
